@@ -4,6 +4,7 @@ import (
 	"fmt"
 	"go/ast"
 	"go/token"
+	"go/types"
 	"strings"
 
 	"golang.org/x/tools/go/cfg"
@@ -294,6 +295,39 @@ func runC09(c *Ctx) {
 			}
 		}
 	}
+	// a commit is reported successful without being sent only when it is empty
+	for _, key := range []string{"kgo.Client.CommitOffsets", "kgo.Client.CommitOffsetsSync", "kgo.groupConsumer.commitOffsetsSync", "kgo.groupConsumer.commit"} {
+		ef := c.NeedFunc(m, key)
+		if ef == nil {
+			continue
+		}
+		k := 0
+		ast.Inspect(ef.Decl.Body, func(x ast.Node) bool {
+			if lit, isLit := x.(*ast.FuncLit); isLit {
+				// wrapper closures forward the real result; the spawned commit goroutine reports the response
+				_ = lit
+				return false
+			}
+			call, ok := x.(*ast.CallExpr)
+			if !ok || exprStr(call.Fun) != "onDone" || len(call.Args) != 4 {
+				return true
+			}
+			if exprStr(call.Args[3]) != "nil" {
+				return true // an error is reported: nothing claimed
+			}
+			k++
+			eg := ef.Graph()
+			l, okl := eg.LocOf(call)
+			if !okl {
+				if st := enclosingStmt(ef.Decl.Body, call); st != nil {
+					l, okl = eg.LocOf(st)
+				}
+			}
+			empty := okl && factMatches(eg.FactsAt(l), func(ft Fact) bool { return ft.Val && nosp(exprStr(ft.Cond)) == "len(uncommitted)==0" })
+			c.Check(empty, "commit-success-only-if-sent", key+": onDone(..., nil) without a request#"+ordinal(&k), call.Pos(), m, "only for an empty commit", "a commit is reported successful without being sent although it is not empty: a later commit that rewinds (or equals the cached committed offsets while an earlier commit is still in flight) is dropped, so the coordinator does not end at the last successful commit")
+			return true
+		})
+	}
 	// (3) updateCommitted stores
 	if uf := c.NeedFunc(m, "kgo.groupConsumer.updateCommitted"); uf != nil {
 		ug := uf.Graph()
@@ -343,6 +377,7 @@ func runC08(c *Ctx) {
 	if m == nil {
 		return
 	}
+	c08discard(c, m)
 	rule := "autocommit-commits-head-only"
 	if f := c.NeedFunc(m, "kgo.groupConsumer.loopCommit"); f != nil {
 		n := 0
@@ -422,7 +457,9 @@ func runC08(c *Ctx) {
 			case "kgo.groupConsumer.applySetOffsets", "kgo.groupConsumer.fetchOffsets":
 				c.OK(rule2, cons, st.Node.Pos(), m, "explicit reset / fetched committed offset")
 			case "kgo.Client.MarkCommitRecords", "kgo.Client.MarkCommitOffsets":
-				fwd := factMatches(facts, func(ft Fact) bool { return ft.Val && strings.Contains(nosp(exprStr(ft.Cond)), "current.head.Less(newHead)") })
+				fwd := factMatches(facts, func(ft Fact) bool {
+					return ft.Val && strings.Contains(nosp(exprStr(ft.Cond)), "current.head.Less(newHead)")
+				})
 				c.Check(fwd && rhs == "newHead", rule2, cons, st.Node.Pos(), m, "marks only move head forward", "a mark can move head without the forward test")
 			default:
 				c.Fail(rule2, cons, st.Node.Pos(), m, "uncommit.head is written by a function outside the confirmed table")
@@ -505,4 +542,56 @@ func isDeferred(f *Func, call *ast.CallExpr) bool {
 		return !found
 	})
 	return found
+}
+
+// c08discard: two ways a record can be skipped without any member having been
+// handed it, or committed without a following poll:
+// (a) a buffered fetch that is thrown away (session stop: rebalance, leave)
+// must re-enable its cursors WITHOUT advancing them (finishUsingAll); only
+// the take paths that hand the records to the application advance the cursor;
+// (b) inside Client.close no poll runs before the group is left: a poll marks
+// the previously returned records as processed (undirtyUncommitted), and the
+// leave's revoke commit would then cover records the application never
+// confirmed by polling again.
+func c08discard(c *Ctx, m *Module) {
+	if f := c.NeedFunc(m, "kgo.source.discardBuffered"); f != nil {
+		info := f.Info()
+		all := m.Method("kgo", "usedOffsets", "finishUsingAll")
+		n := 0
+		for _, call := range callsNamed(f.Decl.Body, info, "takeBufferedFn", false) {
+			n++
+			ok := false
+			if len(call.Args) == 2 {
+				if sel, isSel := unparen(call.Args[1]).(*ast.SelectorExpr); isSel && all != nil && info.Uses[sel.Sel] == types.Object(all) {
+					ok = true
+				}
+			}
+			c.Check(ok, "discard-keeps-cursor", f.Key+": takeBufferedFn(_, usedOffsets.finishUsingAll)", call.Pos(), m, "discarded records do not move the cursor", "a discarded (never polled) buffered fetch advances its cursors: after a cooperative rebalance the partitions the member keeps skip records that no member was ever handed, and later commits move past them")
+		}
+		c.Check(n == 1, "discard-keeps-cursor", f.Key+"#call", f.Pos(), m, "", "discardBuffered does not call takeBufferedFn exactly once")
+	}
+	if f := c.NeedFunc(m, "kgo.Client.close"); f != nil {
+		info := f.Info()
+		g := f.Graph()
+		var leave []Loc
+		for _, call := range callsNamed(f.Decl.Body, info, "LeaveGroupContext", false) {
+			if l, ok := g.LocOf(call); ok {
+				leave = append(leave, l)
+			}
+		}
+		c.Check(len(leave) >= 1, "no-poll-before-leave", f.Key+"#leave", f.Pos(), m, "", "Client.close does not leave the group")
+		k := 0
+		for _, name := range []string{"PollFetches", "PollRecords"} {
+			for _, call := range callsNamed(f.Decl.Body, info, name, false) {
+				l, ok := g.LocOf(call)
+				bad := !ok
+				for _, ll := range leave {
+					if ok && g.reachFwd(l, ll) {
+						bad = true
+					}
+				}
+				c.Check(!bad, "no-poll-before-leave", f.Key+": "+name+" only after the group was left#"+ordinal(&k), call.Pos(), m, "", "Client.close polls before leaving the group: the internal poll marks the application's last returned batch as processed (dirty -> head) although the application never polled again, and the leave's revoke commits it")
+			}
+		}
+	}
 }
